@@ -104,6 +104,36 @@ def systems(quick, seed, dmax):
         sel += [s for s in out if s[0] in must and s[0] not in names_sel]
         out = sel
     res = []
+    # second family: sparse triangular matrices (acyclic systems with delayed copies feeding accumulators, several levels)
+    diag = ["0", "0", "1", "1", "2", "1/2", "-1", "3"]
+    off = ["0", "0", "0", "1", "-1", "2", "1/2"]
+    ntri = 30 if quick else 400
+    for t in range(ntri):
+        d = rnd.choice([3, 4, 4, 5] if not quick else [3, 4, 4, 5])
+        lower = rnd.random() < 0.5
+        M = [["0"] * d for _ in range(d)]
+        for i in range(d):
+            M[i][i] = rnd.choice(diag)
+            for j in range(d):
+                if (j < i if lower else j > i):
+                    M[i][j] = rnd.choice(off)
+        b = [QPoly.const(rnd.choice([0, 0, 1, -1, 2])) for _ in range(d)] if rnd.random() < 0.5 else None
+        res.append((f"tri{t}/d{d}", qmat(M), b))
+    # third family: L delayed copies (zero diagonal) feeding a tower of A accumulators (non-zero diagonal) -- the shape behind
+    # the validity-shift mechanism of the acyclic solver (every level inherits the transient of the level below)
+    for L in (1, 2, 3):
+        for Acc in (1, 2, 3):
+            for dg in (["1", "1", "1"], ["2", "1", "1/2"]):
+                d = L + Acc + 1
+                M = [["0"] * d for _ in range(d)]
+                M[0][0] = "2"                      # source x' = 2x
+                for i in range(1, L + 1):
+                    M[i][i - 1] = "1"              # delay_i' = previous level
+                for a in range(Acc):
+                    i = L + 1 + a
+                    M[i][i] = dg[a]
+                    M[i][i - 1] = "1"
+                res.append((f"tower/L{L}A{Acc}/{'-'.join(dg[:Acc])}", qmat(M), None))
     for name, B, P, inhom in out:
         Pq, Piq = qmat(P), qmat(int_inverse(P))
         A = mmul(mmul(Pq, qmat(B)), Piq)
